@@ -29,6 +29,12 @@ def build_fixture(root):
     shutil.copy(os.path.join(src, "Australia", "Sydney"), os.path.join(root, "abs_sydney"))
     good = open(os.path.join(src, "Europe", "Paris"), "rb").read()
     open(os.path.join(tz, "Truncated"), "wb").write(good[: len(good) // 2])
+    # truncated inside the footer: the closing newline missing, cut right after the opening newline, no footer at all
+    open(os.path.join(tz, "TruncNL"), "wb").write(good[:-1])
+    fstart = good.rindex(b"\n", 0, len(good) - 1)
+    open(os.path.join(tz, "TruncFooter"), "wb").write(good[:fstart + 1])
+    open(os.path.join(tz, "TruncNoFooter"), "wb").write(good[:fstart])
+    open(os.path.join(tz, "TruncMidRule"), "wb").write(good[:fstart + 5])
     open(os.path.join(tz, "Garbage"), "wb").write(b"this is not a zone file\n" * 10)
     open(os.path.join(tz, "Empty"), "wb").write(b"")
     types = [(-18000, False, b"EST"), (-14400, True, b"EDT")]
@@ -57,7 +63,7 @@ def run(pid, tier, seed):
     tzdir = build_fixture(fx)
     abs_syd = os.path.join(fx, "abs_sydney")
     names = [b"America/New_York", b"X", b"file:X", b"file:America/New_York", abs_syd.encode(), b"file:" + abs_syd.encode(),
-             b"Nope/Missing", b"", b"Dir", b"Unreadable", b"Truncated", b"Garbage", b"Empty", b"RightSlim", b"RightFat", b"BadFooter", b"V1",
+             b"Nope/Missing", b"", b"Dir", b"Unreadable", b"Truncated", b"TruncNL", b"TruncFooter", b"TruncNoFooter", b"TruncMidRule", b"Garbage", b"Empty", b"RightSlim", b"RightFat", b"BadFooter", b"V1",
              b":X", b":America/New_York", b"UTC", b"UTC0", b"Fixed/UTC+01:00:00", b"Fixed/UTC-23:59:59", b"Fixed/UTC+24:00:01",
              b"file:", b"file:/", b"/", b"/nonexistent/zone", b"file:UTC", b"localtime", b"x/../X", b"America/New_York/", b"X ", b" X",
              (tzdir + "/X").encode(), b"file:" + (tzdir + "/Garbage").encode(), b"Etc/UTC", b"posixrules"]
